@@ -182,3 +182,67 @@ func keysOf(m map[string]bool) []string {
 	sort.Strings(out)
 	return out
 }
+
+func init() { Commands["cleaner-run"] = cmdCleanerRun }
+
+// cmdCleanerRun: the cleaner driven through Worker.Run (as the sync loop does): a listing that fails - with a plain
+// error or with a backend request timeout - does not end the cleaning for good: superseded snapshots that have
+// passed the keep interval are removed by a later run, and Run returns only when its context is cancelled.
+func cmdCleanerRun(args []string) error {
+	R := NewResult()
+	for sc := 0; sc < 3; sc++ {
+		ctx, cancel := context.WithCancel(context.Background())
+		fb := &faultBucket{Interface: memory.New(), loadGate: map[string]chan struct{}{}, failDelete: map[string]bool{}}
+		switch sc {
+		case 1:
+			fb.failListErrs = []error{errInjected, errInjected}
+		case 2:
+			fb.failListErrs = []error{fmt.Errorf("injected storage failure: request timed out: %w", context.DeadlineExceeded)}
+		}
+		now := time.Now()
+		var names []string
+		for i := 0; i < 3; i++ {
+			ni := snapshot.NameInfo{Kind: snapshot.KindSnapshot, Extension: snapshot.DefaultExtension, SyncerName: "default", InstanceID: "i1",
+				GenerationID: "GX", Timestamp: now.Add(time.Duration(i-10) * time.Minute)}
+			names = append(names, ni.BuildName())
+			_ = fb.Interface.Store(ctx, ni.BuildName(), []byte("snap"))
+		}
+		l := logrus.New()
+		l.SetLevel(logrus.PanicLevel)
+		w := cleaner.New("default", fb, config.Cleanup{Enabled: true, Interval: 5 * time.Millisecond, MustKeepInterval: 20 * time.Millisecond,
+			RemoveOldInstancesInterval: time.Hour}, l)
+		done := make(chan error, 1)
+		go func() { done <- w.Run(ctx) }()
+		cleaned := false
+		returnedEarly := false
+		deadline := time.Now().Add(3 * time.Second)
+		for time.Now().Before(deadline) && !cleaned && !returnedEarly {
+			select {
+			case <-done:
+				returnedEarly = true
+			case <-time.After(10 * time.Millisecond):
+			}
+			ls, _ := fb.Interface.List(context.Background(), "")
+			cleaned = len(ls) == 1
+		}
+		R.Add(1, 1, 1)
+		sig := map[string]interface{}{"prop": "C12", "class": "cleaner-run", "scenario": sc}
+		if returnedEarly {
+			R.Bad(sc, sig, "cleaner.Run returned although its context is alive (listing failures: %d)", sc)
+		} else if !cleaned {
+			ls, _ := fb.Interface.List(context.Background(), "")
+			R.Bad(sc, sig, "superseded snapshots were not removed within 3 s by the running cleaner: %v", ls.Names())
+		} else if ls, _ := fb.Interface.List(context.Background(), ""); len(ls) != 1 || ls[0].Name != names[2] {
+			R.Bad(sc, sig, "the cleaner kept %v, the newest snapshot is %s", ls.Names(), names[2])
+		}
+		cancel()
+		if !returnedEarly {
+			select {
+			case <-done:
+			case <-time.After(3 * time.Second):
+				R.Bad(sc, sig, "cleaner.Run did not return after cancellation")
+			}
+		}
+	}
+	return Emit(R)
+}
